@@ -522,6 +522,10 @@ impl Case<'_> {
         }));
         match r {
             Ok(Ok(())) => rec,
+            // failures of the harness's own git plumbing are tool trouble, not behaviour of jj
+            Ok(Err(e)) if e.starts_with("git update-ref --stdin") || e.starts_with("harness:") || e.starts_with("git [") => {
+                json!({"op": "harness_error", "act": a, "b": b, "c": c, "set": set, "msg": e})
+            }
             Ok(Err(e)) => json!({"op": "error", "act": a, "b": b, "c": c, "set": set, "msg": e}),
             Err(p) => json!({"op": "panic", "act": a, "b": b, "c": c, "set": set, "msg": p}),
         }
@@ -591,7 +595,7 @@ impl Runner {
             if let Some(exp) = s.get("post") {
                 rec["match"] = json!(rec.get("post").is_some_and(|p| same_state(exp, p)));
             }
-            let stop = matches!(rec["op"].as_str(), Some("error") | Some("panic"));
+            let stop = matches!(rec["op"].as_str(), Some("error") | Some("panic") | Some("harness_error"));
             out.emit(&rec);
             if stop {
                 self.env = None;
@@ -640,7 +644,7 @@ impl Runner {
                 }
             };
             let rec = case.step(&s);
-            let stop = matches!(rec["op"].as_str(), Some("error") | Some("panic"));
+            let stop = matches!(rec["op"].as_str(), Some("error") | Some("panic") | Some("harness_error"));
             if let Some(p) = rec.get("post") {
                 known = usizes(&p["known"]);
                 remote = usizes(&p["remote"]);
